@@ -27,6 +27,7 @@
 //!        | Z.<rows>.<max_index>    scores.resize(rows, max_index)
 //!        | C                       scores = scores.clone()
 //!        | D                       scores = Default::default()
+//!        | F.<hex>                 scores.matrix_mut().fill(f32::from_bits(hex))
 //!     observation: q<j>=<len>/<wrap>/<rows> (striped matrix of sequence j), and after step i:
 //!     o<i>=<res> (`P|<res>`: the call panicked, <res> is what the buffer holds afterwards),
 //!     f<i>=<res> the same call through the generic pipeline on a FRESH buffer (`=`: identical to o<i>),
@@ -488,6 +489,10 @@ fn run_hist_cols<C: Cols<Dna> + Cols<Protein>>(h: &Hist) -> String {
                 buf = c;
             }
             "D" => buf = Default::default(),
+            "F" => {
+                let v = f32::from_bits(u32::from_str_radix(&op[1], 16).unwrap());
+                ok = no_panic(|| buf.matrix_mut().fill(v)).is_some();
+            }
             _ => panic!("unknown history op"),
         }
         let state = show_scores(&buf);
@@ -934,7 +939,11 @@ fn gen_hist(rng: &mut Rng, id: usize, tier: &str) -> String {
                 };
                 ops.push(format!("Z.{}.{}", rows, maxi));
             }
-            85..=93 => ops.push("C".to_string()),
+            85..=90 => ops.push("C".to_string()),
+            91..=95 => ops.push(format!(
+                "F.{:08x}",
+                *rng.pick(&[0x7fc0_0000u32, 0x7f80_0000, 0xff80_0000, 0x4640_e400, 0x8000_0000, 0x0000_0001])
+            )),
             _ => ops.push("D".to_string()),
         }
     }
@@ -1020,13 +1029,15 @@ fn gen_case(rng: &mut Rng, id: usize, tier: &str) -> String {
     let inf_elsewhere = rng.chance(25, 100) && !wc_focus;
     let special = rng.chance(3, 100) && !wc_focus;
     let zero_rate = if wc_focus { *rng.pick(&[20u64, 40, 100]) } else { 5 };
+    // a motif of -0.0 cells only: every pipeline must return +0.0 (C01_score_never_negative_zero)
+    let all_neg_zero = zero_rate == 100 && rng.chance(1, 2);
     let mut rows: Vec<String> = vec![];
     for _ in 0..m {
         let mut row = String::new();
         for s in 0..k {
             let mut v = gen_cell(rng, style);
             if rng.chance(zero_rate, 100) {
-                v = if rng.chance(if wc_focus { 1 } else { 2 }, 4) { 0 } else { 0x8000_0000 };
+                v = if !all_neg_zero && rng.chance(if wc_focus { 1 } else { 2 }, 4) { 0 } else { 0x8000_0000 };
             }
             if (s == k - 1 && wild_inf) || (inf_elsewhere && rng.chance(3, 100)) {
                 v = NEG_INF;
